@@ -446,7 +446,7 @@ func mutate(r *rand.Rand, doc *generator.Doc, cfg *generator.Config, kind int) s
 		return out
 	}
 	if kind < 0 {
-		kind = r.Intn(12)
+		kind = r.Intn(13)
 	}
 	switch kind {
 	case 0: // remove a member
@@ -543,8 +543,14 @@ func mutate(r *rand.Rand, doc *generator.Doc, cfg *generator.Config, kind int) s
 		doc.Fields = append(doc.Fields, &generator.Field{Number: strconv.Itoa(num), Name: gname, Type: "NUMINGROUP"})
 		g := &generator.ComponentMember{Name: gname, Required: "N"}
 		g.XMLName.Local = "group"
+		picked := map[string]bool{}
 		for k := 0; k < 1+r.Intn(3); k++ {
-			m := &generator.ComponentMember{Name: names[r.Intn(len(names))], Required: "N"}
+			nm := names[r.Intn(len(names))]
+			if picked[nm] {
+				continue // a member name at most once per group (a schema with a repeated member is not a schema)
+			}
+			picked[nm] = true
+			m := &generator.ComponentMember{Name: nm, Required: "N"}
 			m.XMLName.Local = "field"
 			g.Members = append(g.Members, m)
 		}
@@ -556,6 +562,15 @@ func mutate(r *rand.Rand, doc *generator.Doc, cfg *generator.Config, kind int) s
 			doc.Header.Members[i], doc.Header.Members[j] = doc.Header.Members[j], doc.Header.Members[i]
 		})
 		return "shuffle header"
+	case 11: // the same field defined twice, verbatim or with another type: a duplicate field number all the same
+		f := doc.Fields[r.Intn(len(doc.Fields))]
+		dup := *f
+		if r.Intn(2) == 0 {
+			dup.Type = "STRING"
+		}
+		at := r.Intn(len(doc.Fields) + 1)
+		doc.Fields = append(doc.Fields[:at:at], append([]*generator.Field{&dup}, doc.Fields[at:]...)...)
+		return "repeat the definition of field " + f.Name
 	default:
 		return "noop"
 	}
@@ -891,7 +906,7 @@ func main() {
 		var descs []string
 		// the first mutation cycles through every kind (so that every run, however short, covers them all);
 		// further ones are random
-		descs = append(descs, mutate(r, base, bcfg, i%11))
+		descs = append(descs, mutate(r, base, bcfg, i%12))
 		for k := 0; k < r.Intn(3); k++ {
 			descs = append(descs, mutate(r, base, bcfg, -1))
 		}
